@@ -144,9 +144,21 @@ class _Reqs:
         if fn is None:
             return False, "compute_root missing"
         lv = ("field", ("param", fn.path, 1), "levels")
+
+        def own_is_empty():
+            # `self.is_empty()` where MerkleTree::is_empty returns levels[0].is_empty() (or levels[0].len() == 0)
+            q = MERKLE + "::is_empty"
+            if q not in P.fns:
+                return False
+            from lib import ret_as_predicate
+            r = ret_as_predicate(W, q)
+            l0 = ("index", ("field", ("param", q, 1), "levels"), ("int", 0))
+            if isinstance(r, tuple) and r and r[0] == "call" and r[1].split("::")[-1] == "is_empty" and r[2] and r[2][0] == l0:
+                return True
+            return isinstance(r, tuple) and r and r[0] == "bin" and r[1] == "Eq" and ("len", l0) == tuple(r[2][:2]) and r[3] == ("int", 0)
         for (bb, mac, rels) in ps:
             if mac == "assert":
-                if not any((r[0] == "Pred" and r[1] == "is_empty" and r[2] == ("index", lv, ("int", 0))) or
+                if not any((r[0] == "Pred" and r[1] == "is_empty" and r[2] == ("param", fn.path, 1) and own_is_empty()) or (r[0] == "Pred" and r[1] == "is_empty" and r[2] == ("index", lv, ("int", 0))) or
                            (r[0] == "Eq" and isinstance(r[1], tuple) and r[1][:2] == ("len", ("index", lv, ("int", 0))) and r[2] == ("int", 0)) for r in rels):
                     return False, "the assert! in compute_root is no longer `!self.levels[0].is_empty()`"
             elif mac == "assert_eq":
